@@ -382,7 +382,7 @@ func ruleR18f(h *H) {
 			return ok && ir.TypeIs(mt.Elem(), "coordinator/model", "ShardMetadata")
 		}
 		r, path := ir.Reach(ir.Search{From: elem, Barrier: isStore}, ir.Is(elem))
-		h.Verdict(!r, rule, "every generated shard is stored in "+ir.FuncName(fn), h.pos(elem), "each iteration stores its shard",
+		h.Verdict(!r, rule, "every generated shard of a new namespace is stored", h.pos(elem), "each iteration stores its shard",
 			"an iteration over the generated shards can complete without storing the shard (e.g. when no ensemble can be selected) while the namespace is still created and the id generator advanced: the published map has a hole in the hash space", witness(path))
 	}
 	if n == 0 {
@@ -397,7 +397,7 @@ func ruleR18f(h *H) {
 // representative values (K11). Bound comparisons anywhere else are accepted when
 // inclusive (<=, >=) and undecided otherwise.
 func hashRangePredicate(h *H, rule string, fn *ssa.Function) int {
-	bases := map[ssa.Value]int{}
+	bases := map[string]int{}
 	others := map[ssa.Value]bool{}
 	var cmps []*ssa.BinOp
 	boundOf := func(v ssa.Value) (string, bool) {
@@ -405,7 +405,7 @@ func hashRangePredicate(h *H, rule string, fn *ssa.Function) int {
 		if !ok || r.Struct == nil || r.Struct.Obj().Name() != "HashRange" {
 			return "", false
 		}
-		b := ir.Canon(r.Base)
+		b := rangeBaseKey(r.Base)
 		if _, seen := bases[b]; !seen {
 			bases[b] = len(bases)
 		}
@@ -431,10 +431,10 @@ func hashRangePredicate(h *H, rule string, fn *ssa.Function) int {
 			return
 		}
 		if !lb {
-			others[ir.Canon(bo.X)] = true
+			others[stripConv(ir.Canon(bo.X))] = true
 		}
 		if !rb {
-			others[ir.Canon(bo.Y)] = true
+			others[stripConv(ir.Canon(bo.Y))] = true
 		}
 		cmps = append(cmps, bo)
 	})
@@ -466,7 +466,7 @@ func hashRangePredicate(h *H, rule string, fn *ssa.Function) int {
 		if n, ok := boundOf(v); ok {
 			return n
 		}
-		if others[ir.Canon(v)] {
+		if others[stripConv(ir.Canon(v))] {
 			return "x"
 		}
 		return ""
@@ -613,4 +613,27 @@ func ruleR18g(h *H) {
 	if n == 0 {
 		h.Anchor(rule, "ClusterStatus literals derived from an existing status")
 	}
+}
+
+// rangeBaseKey names the object a HashRange bound is read from structurally, so that two
+// extractions of the same struct field (two ssa.Field instructions) count as one range.
+func rangeBaseKey(v ssa.Value) string {
+	c := ir.Canon(v)
+	switch x := c.(type) {
+	case *ssa.Field:
+		if st, ok := x.X.Type().Underlying().(*types.Struct); ok {
+			return rangeBaseKey(x.X) + "." + st.Field(x.Field).Name()
+		}
+	case *ssa.FieldAddr:
+		if r, ok := ir.FieldAddrOf(x); ok {
+			return rangeBaseKey(r.Base) + "." + r.Field
+		}
+	case *ssa.UnOp:
+		if x.Op == token.MUL {
+			return rangeBaseKey(x.X)
+		}
+	case *ssa.Parameter:
+		return "param:" + x.Name()
+	}
+	return fmt.Sprintf("%p", c)
 }
